@@ -1214,6 +1214,8 @@ def _register_required_structure_hooks(
         lsp_types.NotebookDocumentFilterScheme,
         lsp_types.NotebookDocumentFilterPattern,
     ]:
+        if object_ is None:
+            return None
         if isinstance(object_, str):
             return str(object_)
         elif "notebookType" in object_:
@@ -1224,6 +1226,15 @@ def _register_required_structure_hooks(
             return converter.structure(object_, lsp_types.NotebookDocumentFilterScheme)
         else:
             return converter.structure(object_, lsp_types.NotebookDocumentFilterPattern)
+
+    def _configuration_section_hook(
+        object_: Any, _: type
+    ) -> Optional[Union[str, Sequence[str]]]:
+        if object_ is None:
+            return None
+        if isinstance(object_, str):
+            return object_
+        return [str(item) for item in object_]
 
     NotebookSelectorItem = attrs.fields(
         lsp_types.NotebookCellTextDocumentFilter
@@ -1255,6 +1266,8 @@ def _register_required_structure_hooks(
             _notebook_filter_hook,
         ),
         (NotebookSelectorItem, _notebook_filter_hook),
+        (Optional[NotebookSelectorItem], _notebook_filter_hook),
+        (Optional[Union[str, Sequence[str]]], _configuration_section_hook),
         (
             Union[lsp_types.LSPObject, Sequence["LSPAny"], str, int, float, bool, None],
             _lsp_object_hook,
